@@ -6,6 +6,7 @@ mod jsonio;
 mod prog;
 mod s_atten;
 mod s_authz;
+mod s_determ;
 mod s_engine;
 mod s_expr;
 
@@ -25,6 +26,7 @@ fn main() {
         "engine" => s_engine::run(&opts),
         "authz" => s_authz::run(&opts),
         "atten" => s_atten::run(&opts),
+        "determ" => s_determ::run(&opts),
         other => {
             eprintln!("unknown stream {other}");
             std::process::exit(2);
